@@ -6,6 +6,7 @@ built natively."""
 from __future__ import annotations
 
 import collections.abc
+import datetime
 import typing as t
 
 from vlib.cond import Cond
@@ -17,7 +18,7 @@ META = {
                   "typelib.ctx.TypeContext", "typelib.py.inspection.args/normalize_typevar/isunresolvable/origin",
                   "typelib.*.routines.*.__init__ (context lookups)"],
     "bounds": {
-        "quick": "24 leaves (int, str, None, Any, object, bare list/dict/tuple/set, typing.List/Dict, TypeVar free/bound/constrained, "
+        "quick": "36 leaves (int, str, None, Any, object, bare list/dict/tuple/set/frozenset, typing.List/Dict/Tuple/Set/FrozenSet/Sequence/Mapping/MutableMapping/Collection/Iterable/Deque, hint-less classes with a C constructor (Exception / tzinfo subclasses), TypeVar free/bound/constrained, "
                  "a class without hints, a bare and a parameterised user Generic, a dataclass, Callable, type, Decimal, date, Literal, "
                  "Enum) under 14 constructors (list, set, dict[str,.], tuple[., ...], tuple[., .], Optional, Union[., .], Sequence, "
                  "Mapping[str,.], Box[.], Callable[[.], .], type[.], Final, two variadic tuples): depth 1 exhaustively, depth 2 for every "
@@ -45,6 +46,14 @@ class NoHints:
         self.z = 1
 
 
+class AppError(Exception):  # no hints, constructor inherited from a C base without a text signature
+    pass
+
+
+class Zone(datetime.tzinfo):  # likewise
+    pass
+
+
 def _d(*xs):
     return "" if SYMBOLIC else " | ".join(repr(x)[:200] for x in xs)
 
@@ -58,7 +67,58 @@ def leaves():
         ("tuple", tuple), ("set", set), ("List", t.List), ("Dict", t.Dict), ("T", T_free), ("T_bound", T_bound), ("T_cons", T_cons),
         ("NoHints", NoHints), ("Box", Box), ("Box[int]", Box[int]), ("Point", M.Point), ("Callable", t.Callable),
         ("type", type), ("Decimal", decimal.Decimal), ("date", datetime.date), ("Literal[1,'a']", t.Literal[1, "a"]), ("Color", M.Color),
+        ("frozenset", frozenset), ("Tuple", t.Tuple), ("Set", t.Set), ("FrozenSet", t.FrozenSet), ("Sequence", t.Sequence),
+        ("Mapping", t.Mapping), ("MutableMapping", t.MutableMapping), ("Collection", t.Collection), ("Iterable", t.Iterable),
+        ("Deque", t.Deque), ("AppError", AppError), ("Zone", Zone),
     ]
+
+
+class _Opaque:
+    def __hash__(self):
+        return 7
+
+
+def _bare_value(T):
+    """A container of the bare annotation's class with members no routine can convert, or None for other leaves."""
+    a, b = _Opaque(), _Opaque()
+    o = t.get_origin(T) or T
+    import collections
+    import collections.abc as abc
+
+    if T in (t.Any, object) or not isinstance(o, type) or t.get_args(T):
+        return None
+    if o in (dict, abc.Mapping, abc.MutableMapping):
+        return {"k": a, "j": b}, [a, b]
+    if o in (list, abc.Sequence, abc.Collection, abc.Iterable):
+        return [a, b, 1], [a, b, 1]
+    if o is tuple:
+        return (a, b, 1), [a, b, 1]
+    if o is set:
+        return {a}, [a]
+    if o is frozenset:
+        return frozenset({a}), [a]
+    if o is collections.deque:
+        return collections.deque([a, b]), [a, b]
+    return None
+
+
+def check_bare(name, T, built):
+    """Members of an unparameterised container have no resolvable type: every one is passed through (same objects, none dropped)."""
+    bv = _bare_value(T)
+    if bv is None:
+        return None
+    val, members = bv
+    for what in ("unmarshaller", "marshaller"):
+        try:
+            r = built[what](val)
+        except Exception as e:  # noqa: BLE001
+            return ("bare_container_rejects_own_instance:" + what, name, _d(e))
+        got = list(r.values()) if isinstance(r, dict) else list(r)
+        if len(got) != len(members) or not all(any(g is m for g in got) for m in members):
+            return ("bare_container_members_not_passed_through:" + what, name, _d(val, r))
+        if what == "unmarshaller" and type(r) is not type(val):
+            return ("bare_container_class_changed", name, _d(val, r))
+    return None
 
 
 UNARY = [
@@ -157,6 +217,9 @@ def check(name, T):
                     return ("unresolvable_root_not_passthrough:" + what, name, "")
             except Exception as e:  # noqa: BLE001
                 return ("unresolvable_root_raises:" + what, name, _d(e))
+    r = check_bare(name, T, built)
+    if r is not None:
+        return r
     # repeatable construction: rebuild (cache hit), rebuild after clearing every cache
     def outcomes(u):
         out = []
